@@ -7,9 +7,25 @@ accesses to the per-user config files (active only under ABLAB_ISOQUANT_VERIF=1;
 
 barrier(label): wait until the next slot of the schedule names this process (slots of processes that have finished
 their cache phase or exited are skipped); when the schedule is exhausted everybody runs freely.
+A slot is a pid (that process performs ONE step) or [pid, label] (that process performs steps up to and including the
+barrier `label`) or [pid, label, "arrive"] (… up to the barrier `label`, at which it stays waiting for a later slot).
 Barrier points: os.path.exists / open(..,'w') / close / open(..,'r') / os.replace on a config file,
 gtf2db.find_converted_db, the conversion gtf2db.gtf2db; with VERIF_C20_HOLD_USE=1 also "use": after convert_gtf_to_db has
 returned the database the run goes on to use (C20Stable).
+Optional barrier points (each only when its variable is set, so the slot counts of the other schedules are unchanged):
+    VERIF_C20_START_BARRIER=1  "start": before isoquant.main, i.e. before set_configs_directory (a run that STARTS while
+                               another one is in the middle of a store)
+    VERIF_C20_HOLD_FAI=1       the REAL pyfaidx under the token: "faiOpenW" / "faiWrite" (open(<...fai...>,'w') and the close
+                               of that handle: pyfaidx fills the index at close) / "faiLoad" (open for reading), and
+                               "refLoad" / "refLoaded" around DatasetProcessor.__init__ (the cache phase of the run ends
+                               at refLoaded instead of at the end of convert_gtf_to_db)
+    VERIF_C20_HOLD_DB=1        "dbMid": inside the REAL gffutils.create_db, after the records were inserted and before
+                               the relations / indices are built (the file exists and is not a complete database)
+    VERIF_C20_HOLD_AT=<label>, VERIF_C20_HOLD_FOR=<pid>: having been released at barrier <label> this process waits until
+                               process <pid> has exited (a writer held inside its critical section for the whole life of
+                               a reader)
+Every barrier that gives up (120 s) and every hold that times out (300 s) is written to trace.txt as `GAVEUP` / `HOLDTIMEOUT`
+and counted by the harness.
 """
 import atexit
 import builtins
@@ -58,36 +74,99 @@ def mark_done():
         pass
 
 
-def barrier(label, fid):
-    if _free[0] or not SDIR or os.getpid() != MAIN_PID or os.environ.get("ABLAB_ISOQUANT_VERIF") != "1":
+def _slot_pid(s):
+    return s if isinstance(s, int) else s[0]
+
+
+def _trace(text):
+    with _real_open(os.path.join(SDIR, "trace.txt"), "a") as f:
+        f.write(text + "\n")
+
+
+def _hold_after(label):
+    """VERIF_C20_HOLD_AT / _FOR: stay where we are until the named process has exited"""
+    if os.environ.get("VERIF_C20_HOLD_AT") != label:
         return
+    other = os.environ.get("VERIF_C20_HOLD_FOR", "")
+    t0 = time.time()
+    while not os.path.exists(os.path.join(SDIR, "exit.%s" % other)):
+        if time.time() - t0 > 300:
+            lk = _locked()
+            try:
+                _trace("%d %s -1 HOLDTIMEOUT" % (ME, label))
+            finally:
+                fcntl.flock(lk, fcntl.LOCK_UN)
+                lk.close()
+            return
+        time.sleep(0.01)
+
+
+def barrier(label, fid):
+    if not SDIR or os.getpid() != MAIN_PID or os.environ.get("ABLAB_ISOQUANT_VERIF") != "1":
+        return
+    if not _free[0]:
+        _barrier(label, fid)
+    _hold_after(label)
+
+
+def _barrier(label, fid):
     with _real_open(os.path.join(SDIR, "sched.json")) as f:
         sched = json.load(f)
     t0 = time.time()
+    arrived = False
     while True:
         lk = _locked()
         try:
             pos = _read_pos()
-            while pos < len(sched) and sched[pos] != ME and os.path.exists(os.path.join(SDIR, "done.%d" % sched[pos])):
+            while pos < len(sched) and _slot_pid(sched[pos]) != ME and \
+                    os.path.exists(os.path.join(SDIR, "done.%d" % _slot_pid(sched[pos]))):
                 pos += 1
             _write_pos(pos)
             if pos >= len(sched):
                 _free[0] = True
-                with _real_open(os.path.join(SDIR, "trace.txt"), "a") as f:
-                    f.write("%d %s %d free\n" % (ME, label, fid))
+                _trace("%d %s %d free" % (ME, label, fid))
                 return
-            if sched[pos] == ME:
+            s = sched[pos]
+            if s == ME:
                 _write_pos(pos + 1)
-                with _real_open(os.path.join(SDIR, "trace.txt"), "a") as f:
-                    f.write("%d %s %d\n" % (ME, label, fid))
+                _trace("%d %s %d" % (ME, label, fid))
                 return
+            if not isinstance(s, int) and s[0] == ME:
+                if s[1] != label:                # a step on the way to the named barrier
+                    _trace("%d %s %d" % (ME, label, fid))
+                    return
+                if len(s) > 2 and s[2] == "arrive":
+                    if not arrived:              # the slot is consumed by the arrival; this process keeps waiting
+                        arrived = True
+                        _write_pos(pos + 1)
+                        _trace("%d %s %d arrived" % (ME, label, fid))
+                else:
+                    _write_pos(pos + 1)
+                    _trace("%d %s %d" % (ME, label, fid))
+                    return
         finally:
             fcntl.flock(lk, fcntl.LOCK_UN)
             lk.close()
-        if time.time() - t0 > 120:      # never hang a run: give up the token discipline
+        if time.time() - t0 > 120:      # never hang a run: give up the token discipline (counted by the harness)
             _free[0] = True
+            lk = _locked()
+            try:
+                _trace("%d %s %d GAVEUP" % (ME, label, fid))
+            finally:
+                fcntl.flock(lk, fcntl.LOCK_UN)
+                lk.close()
             return
         time.sleep(0.003)
+
+
+def mark_exit():
+    if os.getpid() != MAIN_PID or not SDIR:
+        return
+    try:
+        with _real_open(os.path.join(SDIR, "exit.%d" % ME), "w") as f:
+            f.write("1")
+    except OSError:
+        pass
 
 
 def install():
@@ -104,15 +183,15 @@ def install():
             return None
 
     class WriteProxy:
-        def __init__(self, fobj, f):
-            self._f, self._file = fobj, f
+        def __init__(self, fobj, f, label="write"):
+            self._f, self._file, self._label = fobj, f, label
 
         def write(self, s):
             return self._f.write(s)
 
         def close(self):
             if not self._f.closed:
-                barrier("write", self._file)
+                barrier(self._label, self._file)
                 self._f.close()
 
         def __enter__(self):
@@ -135,6 +214,14 @@ def install():
         barrier("load", f)
         return _real_open(path, mode, *a, **kw)
 
+    gdb = os.environ.get("VERIF_C20_GDB")        # a --genedb_output folder shared by the runs of the case
+
+    def is_gdb(p):
+        try:
+            return gdb is not None and os.path.abspath(os.fspath(p)) == os.path.abspath(gdb)
+        except TypeError:
+            return False
+
     class PathProxy:
         def __getattr__(self, name):
             return getattr(os.path, name)
@@ -143,6 +230,8 @@ def install():
             f = fid(p)
             if f is not None:
                 barrier("exists", f)
+            elif is_gdb(p):
+                barrier("gdbExists", 8)
             return os.path.exists(p)
 
     class OsProxy:
@@ -150,6 +239,11 @@ def install():
 
         def __getattr__(self, name):
             return getattr(os, name)
+
+        def makedirs(self, p, *a, **kw):
+            if is_gdb(p):
+                barrier("gdbMkdir", 8)
+            return os.makedirs(p, *a, **kw)
 
         def replace(self, src, dst, **kw):
             f = fid(dst)
@@ -175,6 +269,8 @@ def install():
     G.gtf2db = gtf2db
     orig_conv = IQ.convert_gtf_to_db
 
+    hold_fai = os.environ.get("VERIF_C20_HOLD_FAI") == "1"
+
     def convert_gtf_to_db(args):
         try:
             r = G.convert_gtf_to_db(args)
@@ -185,15 +281,55 @@ def install():
                 barrier("use", 0)
             return r
         finally:
-            mark_done()          # the cache phase of this run is over
+            if not hold_fai:
+                mark_done()          # the cache phase of this run is over
     IQ.convert_gtf_to_db = convert_gtf_to_db
+
+    if os.environ.get("VERIF_C20_HOLD_DB") == "1":
+        # a hold point INSIDE the real gffutils.create_db: the records are in the file, relations and indices are not
+        import gffutils.create as GC
+        for cls in (GC._GTFDBCreator, GC._GFFDBCreator):
+            def mk(orig):
+                def _update_relations(self, *a, **kw):
+                    barrier("dbMid", 0)
+                    return orig(self, *a, **kw)
+                return _update_relations
+            cls._update_relations = mk(cls._update_relations)
+
+    if hold_fai:
+        # the real pyfaidx under the token: its module-level name `open` is the one _open_fai uses
+        import pyfaidx
+        import src.dataset_processor as DP
+
+        def fai_open(path, mode="r", *a, **kw):
+            if not (isinstance(path, (str, os.PathLike)) and ".fai" in os.path.basename(os.fspath(path))):
+                return _real_open(path, mode, *a, **kw)
+            if "w" in mode:
+                barrier("faiOpenW", 9)
+                return WriteProxy(_real_open(path, mode, *a, **kw), 9, "faiWrite")
+            barrier("faiLoad", 9)
+            return _real_open(path, mode, *a, **kw)
+        pyfaidx.open = fai_open
+        orig_init = DP.DatasetProcessor.__init__
+
+        def dp_init(self, *a, **kw):
+            barrier("refLoad", 9)
+            try:
+                return orig_init(self, *a, **kw)
+            finally:
+                barrier("refLoaded", 9)
+                mark_done()
+        DP.DatasetProcessor.__init__ = dp_init
     return IQ
 
 
 if __name__ == "__main__":
     atexit.register(mark_done)
+    atexit.register(mark_exit)
     IQ = install()
     try:
+        if os.environ.get("VERIF_C20_START_BARRIER") == "1":
+            barrier("start", -1)
         IQ.main(sys.argv[1:])
     except SystemExit:
         raise
